@@ -677,6 +677,11 @@ def check_sequences(ctx, res):
         res.case({"sequence": "scripted"}, nontrivial=True)
         for sig, what in fails:
             res.failures.append(Failure("C01:" + sig, what, {"sequence": "scripted"}))
+        fails = []
+        sq.run_statefuls(ctx, fails, counts)
+        res.case({"sequence": "statefuls"}, nontrivial=True)
+        for sig, what in fails:
+            res.failures.append(Failure("C01:" + sig, what, {"sequence": "statefuls"}))
         for i in range(ctx.n(10, 60)):
             seed = ctx.rng.randrange(1 << 30)
             fails = []
@@ -759,12 +764,12 @@ def replay(ctx: Ctx, data):
     if data.get("quantized"):
         r = Result(); quantized_inplace(ctx, r)
         return r.failures[0] if r.failures else None
-    if data.get("sequence") == "scripted":
+    if data.get("sequence") in ("scripted", "statefuls"):
         from props import seq_common as sq
         from props.C08 import C08Group
         fails = []
         with C08Group(ctx):
-            sq.run_scripted(ctx, fails, {})
+            (sq.run_scripted if data["sequence"] == "scripted" else sq.run_statefuls)(ctx, fails, {})
         return Failure("C01:" + fails[0][0], fails[0][1], data) if fails else None
     if "sequence_seed" in data:
         from props import seq_common as sq
